@@ -13,7 +13,8 @@ Semantics used (cohdl's documented value semantics, C02/C09 statements):
   < <= > >= == !=   numeric for Unsigned/Signed (any widths), bit pattern equality for BitVector
   target <<= v   Unsigned/Signed targets zero/sign extend a narrower value
 A connection behaves like the assignment in data-flow direction (in: formal <<= actual,
-out: actual <<= formal).
+out: actual <<= formal).  A computed actual (x ^ y, x & y, x | y, x + const, x < y, x == y) of an input
+formal is the value of that expression at every instant.
 """
 from __future__ import annotations
 
@@ -133,6 +134,22 @@ def read_actual(act, vals, types, partial=None):
             ty, v = ["bv", w], None if v is None else (v >> sl[1]) & _mask(w)
     if act.get("view"):
         ty = [act["view"], width(ty)]
+    op = act.get("op")
+    if op:
+        if op[0] == "addc":
+            if v is not None:
+                v = (_num(ty[0], ty[1], v) + op[1]) & _mask(ty[1])
+            return ty, v
+        ty2, v2 = read_actual(op[1], vals, types, partial)
+        if op[0] in ("lt", "eq"):
+            if v is None or v2 is None:
+                return ["bit"], None
+            a, b = _num(ty[0], width(ty), v), _num(ty2[0], width(ty2), v2)
+            return ["bit"], int(a < b if op[0] == "lt" else a == b)
+        assert ty == ty2, (ty, ty2)
+        if v is None or v2 is None:
+            return ty, None
+        return ty, {"xor": v ^ v2, "and": v & v2, "or": v | v2}[op[0]]
     return ty, v
 
 
